@@ -162,7 +162,8 @@ func (p *Prog) exprKey(v ssa.Value, d int) string {
 		base, path := addrBase(x.X)
 		switch b := base.(type) {
 		case *ssa.Alloc:
-			if defs, entry := reachingStores(b, path, x); !entry && len(defs) == 1 {
+			ids, partial, idsOK := reachingDefIDs(b, path, x)
+			if defs, entry := reachingStores(b, path, x); !entry && len(defs) == 1 && !partial {
 				dd := defs[0]
 				rest := path
 				if !dd.whole {
@@ -174,11 +175,23 @@ func (p *Prog) exprKey(v ssa.Value, d int) string {
 				}
 				return k
 			}
+			if idsOK && len(ids) > 0 {
+				// several definitions reach the load: loads of the same path with the same
+				// reaching definitions read the same value
+				return "ld:" + idOf(b) + "." + strings.Join(path, ".") + "@" + strings.Join(ids, ",")
+			}
 			return "load:" + idOf(x)
 		case *ssa.Parameter:
 			// field of a pointer parameter (the request): stable unless stored to in this function
 			if !p.fieldStoredInFn(b, path) {
 				return "p:" + b.Name() + "." + strings.Join(path, ".")
+			}
+			return "load:" + idOf(x)
+		case *ssa.FreeVar:
+			// variable captured by a closure (the per-item units): stable inside the closure
+			// unless the closure itself stores to an overlapping path or passes its address on
+			if !pathStoredVia(b, path) {
+				return "fv:" + b.Name() + "." + strings.Join(path, ".")
 			}
 			return "load:" + idOf(x)
 		}
@@ -223,6 +236,76 @@ func (p *Prog) fieldStoredInFn(base ssa.Value, path []string) bool {
 	return false
 }
 
+// coinAmountDef: a is a Coin loaded from a local (or a field of one) whose Amount field
+// was last assigned on its own (coin.Amount = x; send(coin)): returns x. nil otherwise.
+func coinAmountDef(a ssa.Value) ssa.Value {
+	u, ok := a.(*ssa.UnOp)
+	if !ok || u.Op != token.MUL {
+		return nil
+	}
+	base, path := addrBase(u.X)
+	al, ok := base.(*ssa.Alloc)
+	if !ok {
+		return nil
+	}
+	full := append(append([]string{}, path...), "Amount")
+	defs, entry := reachingStores(al, full, u)
+	if entry || len(defs) != 1 {
+		return nil
+	}
+	dd := defs[0]
+	if dd.whole || dd.depth != len(full) {
+		return nil
+	}
+	return dd.st.Val
+}
+
+// pathStoredVia: some store in the function goes through base to a path overlapping the
+// given one (prefix in either direction), or base itself is stored to / passed to a call.
+func pathStoredVia(base ssa.Value, path []string) bool {
+	var visit func(v ssa.Value, chain []string) bool
+	visit = func(v ssa.Value, chain []string) bool {
+		refs := v.Referrers()
+		if refs == nil {
+			return false
+		}
+		for _, ref := range *refs {
+			switch x := ref.(type) {
+			case *ssa.Store:
+				if x.Addr == v {
+					n := len(chain)
+					if n > len(path) {
+						n = len(path)
+					}
+					same := true
+					for j := 0; j < n; j++ {
+						if chain[j] != path[j] {
+							same = false
+						}
+					}
+					if same {
+						return true
+					}
+				}
+			case *ssa.FieldAddr:
+				if x.X == v {
+					if visit(x, append(append([]string{}, chain...), fieldName(x.X.Type(), x.Field))) {
+						return true
+					}
+				}
+			case ssa.CallInstruction:
+				for _, a := range x.Common().Args {
+					if a == v {
+						return true
+					}
+				}
+			}
+		}
+		return false
+	}
+	return visit(base, nil)
+}
+
 // amountKeys returns the sorted distinct expression keys of the amounts of a coins value.
 func (p *Prog) amountKeys(coins ssa.Value) []string {
 	amts, _ := p.coinParts(coins)
@@ -231,7 +314,11 @@ func (p *Prog) amountKeys(coins ssa.Value) []string {
 		k := p.ExprKey(a)
 		ts := a.Type().String()
 		if strings.HasSuffix(ts, "types.Coin") {
-			k += ".Amount" // a whole Coin stands for its amount
+			if av := coinAmountDef(a); av != nil {
+				k = p.ExprKey(av) // the Coin's Amount field was assigned separately
+			} else {
+				k += ".Amount" // a whole Coin stands for its amount
+			}
 		}
 		set[k] = true
 	}
